@@ -37,12 +37,12 @@ E2N = ("trusts rustc's LLVM-IR emission for the kernels being the code that runs
        "rounding, NaN/inf and signed zeros are outside mode R; " + TB)
 CHECKS.update({
     "C03": dict(text="product, transpose, determinant, inverse, +, -, scalar scaling of all 7 matrix types: every output entry of the compiled kernel (SSE2 and scalar-math IR) is proved equal as a real function to the textbook definition (Leibniz determinant, adj/det, M*inverse(M) = I), with the integer-lattice exactness side condition; bit-precise SAT cross-check on the 2x2 lattice [-8,8]", design="4/C03", tech=E2T + "; " + E1, engine="E1+E2", note=E2N),
-    "C04": dict(text="Hamilton product, conjugate, component-wise ops, normalize, and q*v = vector part of q (v,0) conj(q) for EVERY q with its consequences (length, associativity, undo, q ~ -q) proved on the compiled SSE2 and scalar kernels of Quat and DQuat; mul_vec3 == mul_vec3a on all inputs (E1)", design="4/C04", tech=E2T + "; " + E1, engine="E1+E2", note=E2N),
+    "C04": dict(text="Hamilton product, conjugate, component-wise ops, normalize, and q*v = vector part of q (v,0) conj(q) for EVERY q with its consequences (length, associativity, undo, q ~ -q) proved on the compiled SSE2 and scalar kernels of Quat and DQuat; mul_vec3 == mul_vec3a on all inputs, and + - scalar* scalar/ neg equal to the IEEE primitive on every stored lane with rounding, conjugate bit for bit (E1)", design="4/C04", tech=E2T + "; " + E1, engine="E1+E2", note=E2N),
     "C05": dict(text="data-movement conversions between all matrix/affine representations bit for bit (E1, 80 harnesses); from_quat entries, action and composition laws, affine<->Mat4 laws, and matrix->quaternion->matrix = identity on all four branches (path conditions taken from the IR) in mode R", design="4/C05", tech=E2T + "; " + E1, engine="E1+E2", note=E2N),
     "C09": dict(text="from_rotation_x/y/z, from_angle, from_axis_angle (= Rodrigues, proper rotation), from_scaled_axis and all 24 EulerRot orders on Mat3/Mat3A/Mat4/DMat3/DMat4/Quat/DQuat/Affine forms proved equal to the documented products with sin/cos as constrained symbols; the extraction direction (to_euler / to_axis_angle rebuild, gimbal-lock error growth) is NOT decided", design="4/C09", tech=E2T, engine="E2", note=E2N),
     "C10": dict(text="every TRS constructor on the six transform types and both widths equals translation*rotation*scale; to_scale_rotation_translation decided in two steps (structure of the real code on arbitrary matrices + sign-bookkeeping lemmas, the branch bodies being C05's); 2D decomposition recomposes exactly with the atan2 axiom; translation == last column bit for bit (E1)", design="4/C10", tech=E2T + "; " + E1, engine="E1+E2", note=E2N),
     "C11": dict(text="look_to/look_at (rigid, eye->origin, dir->-Z/+Z, up into +Y half-plane) and all perspective/orthographic constructors (clip w, near/far depths incl. infinite and reverse forms, fov/aspect/box planes -> +-1), project_point3 = xyz/w, proved on the compiled kernels in mode R", design="4/C11", tech=E2T, engine="E2", note=E2N),
-    "C12": dict(text="lerp (affine blend, exact endpoints E1), midpoint, move_towards, clamp_length* (2- and 3-component types), any_orthogonal/orthonormal vector/pair, from_rotation_arc_colinear/_2d structure in mode R; SSE2 Quat::slerp restated against the sin-weighted blend with the hemisphere flip (E1, uninterpreted sine kernel). NOT decided: arc-length law, quaternion lerp/slerp/from_rotation_arc as mode-R identities (nlsat unknown), rotate_towards, vector slerp", design="4/C12", tech=E2T + "; " + E1, engine="E1+E2", note=E2N),
+    "C12": dict(text="lerp (affine blend, exact endpoints E1), midpoint, move_towards, clamp_length* (2- and 3-component types), any_orthogonal/orthonormal vector/pair, from_rotation_arc_colinear/_2d structure in mode R; SSE2 Quat::slerp restated against the sin-weighted blend with the hemisphere flip (E1, uninterpreted sine kernel); Vec3A move_towards / clamp_length* / midpoint == the Vec3 forms lane by lane for all inputs (E1, shared uninterpreted sqrt with sound facts). NOT decided: arc-length law, quaternion lerp/slerp/from_rotation_arc as mode-R identities (nlsat unknown), rotate_towards, vector slerp", design="4/C12", tech=E2T + "; " + E1, engine="E1+E2", note=E2N),
 })
 CHECKS.update({
     "C02": dict(text="dot, cross, perp_dot, length(_squared/_recip), distance(_squared), element_sum/product, project/reject (2- and 3-component), reflect, refract, normalize of all 7 float vector types proved equal to the textbook formulas on the compiled kernels (mode R; Vec3A with arbitrary hidden lane); normalize-family discrete outcomes (None / fallback / zero / (X,0) exactly when !(1/len finite and > 0)) on all inputs (E1). All 'within a few eps' clauses and arccos accuracy are NOT decided", design="4/C02", tech=E2T + "; " + E1, engine="E1+E2", note=E2N),
